@@ -1,5 +1,5 @@
 (* C09: the PEP 440 parser accepts exactly Appendix B and prints the normal form. *)
-From ZV Require Import Str Dec Rx RegexSrc Pep440 RegexEquiv Pep440Nf PepRoundTrip PepParseBack PepParseNf.
+From ZV Require Import Str Dec Rx RegexSrc Pep440 RegexEquiv Pep440Nf PepRoundTrip PepParseBack PepParseNf PepAccept.
 From RelationAlgebra Require regex.
 
 (* Tie 1, re-decided on every run: the source regex and Appendix B's regex denote the same language *)
@@ -9,18 +9,31 @@ Proof. exact pep440_regex_lang. Qed.
 Theorem c09_matcher_decides : forall e w, rx_accepts e w = true <-> regex.lang e w.
 Proof. exact rx_accepts_lang. Qed.
 
-(* PARTIAL, as for C08: acceptance = Appendix B language AND the capture scanner / conversions succeed *)
-Theorem c09_accepts_iff_partial : forall s,
-  (exists v, pep_parse s = Some v) <->
-  regex.lang pep440_spec (map pep440_atom_of s) /\ (exists v, pep_extract s = Some v).
-Proof.
-  intros s. unfold pep_parse. rewrite <- pep440_regex_lang, <- rx_accepts_lang.
-  destruct (rx_accepts pep440_src (map pep440_atom_of s)); split.
-  - intros H. split; [reflexivity|exact H].
-  - intros [_ H]. exact H.
-  - intros [v H]. discriminate.
-  - intros [H _]. discriminate.
-Qed.
+(* THE ACCEPTANCE THEOREM, for every string: the parser accepts s exactly when s is a member of the Appendix B language and the numbers
+   the capture scanner extracts from it fit u32 ([numbers_fit s]: epoch, release numbers, pre / post / dev numbers; the u32 bound is
+   known finding numeric-field>=2^32 - PEP 440 itself has no bound).  The hard direction: EVERY member - any case, any of the separators
+   - _ . or none, alternative label spellings, leading zeros, v prefix, implicit numbers, the -N post form - is split into captures by the
+   backtracking scanner (member_has_caps), by inverting membership in a regex that ka proves to contain Appendix B (GrammarKa.pp_in_ka,
+   re-decided on every run), and the conversion of the captures fails only on a number of 2^32 or more (pep_of_caps_iff). *)
+Theorem c09_accepts_iff : forall s,
+  (exists v, pep_parse s = Some v) <-> regex.lang pep440_spec (map pep440_atom_of s) /\ numbers_fit s.
+Proof. exact pep_accepts_iff. Qed.
+
+Theorem c09_member_has_captures : forall s, regex.lang pep440_spec (map pep440_atom_of s) -> pep_caps s <> None.
+Proof. exact member_has_caps. Qed.
+
+Theorem c09_member_refused_only_for_size : forall s, regex.lang pep440_spec (map pep440_atom_of s) -> pep_parse s = None ->
+  exists k, pep_caps s = Some k /\ ~ caps_fit k.
+Proof. exact member_refused_only_for_size. Qed.
+
+(* non-vacuity: an exotic spelling is a member and is accepted; a member with a release number of 2^32 is the refused case *)
+Example c09_accepts_ex :
+  (* "V01!1.02_ALPHA-3-4.DEV_5+Ab-0_1" *)
+  let s := [86;48;49;33;49;46;48;50;95;65;76;80;72;65;45;51;45;52;46;68;69;86;95;53;43;65;98;45;48;95;49]%N in
+  rx_accepts pep440_spec (map pep440_atom_of s) = true /\ pep_parse s <> None /\
+  rx_accepts pep440_spec (map pep440_atom_of (print_dec 4294967296 ++ [46;48])%N) = true /\ pep_parse (print_dec 4294967296 ++ [46;48])%N = None.
+Proof. vm_compute. repeat split; discriminate. Qed.
+
 
 
 (* The printed normal form is a fixed point of the parser: every PEP 440 value in normal form (non-empty release, every label with its
@@ -58,7 +71,9 @@ Proof. exact pep_normal_form_equal. Qed.
 
 Print Assumptions c09_regex_is_appendix_b.
 Print Assumptions c09_matcher_decides.
-Print Assumptions c09_accepts_iff_partial.
+Print Assumptions c09_accepts_iff.
+Print Assumptions c09_member_has_captures.
+Print Assumptions c09_member_refused_only_for_size.
 Print Assumptions c09_normal_form_is_read_back.
 Print Assumptions c09_normal_form_decidable.
 Print Assumptions c09_parser_returns_normal_form.
